@@ -139,6 +139,7 @@ prop("C17", [
     S(CLIENT, "^TestC17Regress$", kind="plain"),
     S(CLIENT, "^TestC17$", q=5000, t=30000, shards=16),
     S(CLIENT, "^TestC17ConcurrentClose$", kind="plain", race=True, q=2000, t=100000),
+    S(CLIENT, "^TestC17ConcurrentClose$", kind="plain", q=4000, t=200000),
 ], ["a synchronous request is never issued while ACKs are pending (the property does not say what happens)",
     "the return value of Close calls after the first is not asserted"],
    nontrivial_classes=["history-with-error-among-acks", "history-with-2-nowait-and-2-waits", "history-with-repeated-close",
@@ -149,10 +150,13 @@ prop("C18", [
     S(CLIENT, "^TestC18Lengths$", kind="plain"),
     S(CLIENT, "^TestC18$", q=5000, t=100000, shards=4),
     S(CLIENT, "^TestC18Concurrent$", kind="plain", race=True, q=200, t=5000),
+    # the same stress without the race detector: its instrumentation changes the timing so much that
+    # interleavings which give duplicate sequence numbers stop occurring
+    S(CLIENT, "^TestC18Concurrent$", kind="plain", q=400, t=20000),
 ], ["needs AF_NETLINK sockets (the check is undecided without them)",
     "only side-effect-free requests: NETLINK_ROUTE message types above RTM_MAX with the REQUEST flag, which the kernel refuses with EOPNOTSUPP and echoes",
     "a zero-length datagram cannot be sent between netlink sockets (ENODATA); it is covered at parser level only"],
-   nontrivial_classes=["send-echoed", "foreign-header-sized-refused", "foreign-short-refused", "parser-short", "parser-ok", "concurrent-batch"])
+   nontrivial_classes=["send-echoed", "foreign-header-sized-refused", "foreign-short-refused", "parser-short", "parser-ok", "concurrent-batch", "concurrent-batch-with-failing-sends"])
 
 COAL = "props/coalesce"
 
@@ -169,6 +173,7 @@ prop("C15", [
     S(COAL, "^TestC15Regress$", kind="plain"),
     S(COAL, "^TestC15$", q=3000, t=50000, shards=16),
     S(COAL, "^TestC15Concurrent$", kind="plain", race=True, q=300, t=20000, timeout_t=3000),
+    S(COAL, "^TestC15Concurrent$", kind="plain", q=300, t=20000, timeout_t=3000),
 ], ["events are compared as deep copies with warnings by text; nil and empty containers are not distinguished",
     "ResolveIDs is meant to change the event it is given; that event's snapshot is refreshed, all others must stay equal"],
    nontrivial_classes=["history-with-repeated-coalescing-of-stateful-group", "history-with-2-live-events", "concurrent-round"])
@@ -187,6 +192,7 @@ prop("C11", [
     S(REASM, "^TestC11$", q=3000, t=50000, shards=16),
     S(REASM, "^TestC11Exhaustive$", kind="plain", q=20000, t=2000000, shards=16, timeout_t=3300),
     S(REASM, "^TestC11Stress$", kind="plain", race=True, q=40, t=3000, timeout_t=3000),
+    S(REASM, "^TestC11Stress$", kind="plain", q=80, t=6000, timeout_t=3000),
 ], ["interleavings are at the granularity of the library's atomic steps (the yield points of the verif hook); races inside a step are only sampled by the race-detector stress",
     "a deadlock is declared only when every worker has been released from the scheduler and nobody finishes within 10 s",
     "'Close invoked' = the moment the first Close call of any kind (worker or re-entrant) is entered; exact under the controlled scheduler"],
